@@ -119,6 +119,7 @@ def run(ctx: Ctx):
     ctx.assumptions = ["calls that would put an element beneath itself are never generated (outside the quantifier)",
                        "positions are any Python integers: negative ones count from the end as in list.insert (Model/Heap.lean normPos)"]
     parsed_documents(ctx)
+    destroy_stream(ctx)
     n_hist = ctx.n(300, 4000)
     steps = ctx.n(25, 40)
     lines, reals, cases, soupss, = [], [], [], []
@@ -138,6 +139,42 @@ def run(ctx: Ctx):
             lines, reals, cases, soupss = [], [], [], []
         if len([v for v in ctx.violations if not v.get("no_failing_input_found")]) >= 5:
             break
+
+
+def destroy_stream(ctx: Ctx):
+    """decompose() / clear(decompose=True) of subtrees that hold EMPTY strings (falsy, yet elements like any other) and equal twins, in
+    every position: afterwards every element that was beneath is destroyed and linked to nothing, and nothing that survives names a
+    parent that does not list it. Built from fresh objects by appends, so the case replays like any history."""
+    for i in range(ctx.n(250, 5000)):
+        r = ctx.rng("destroy", i)
+        nt, ns = r.randint(2, 6), r.randint(2, 6)
+        kinds = "r" + "t" * nt + "s" * ns + "c" * r.randint(0, 1)
+        choices = ["-" if k == "r" else r.choice(["x", "y"]) if k == "t" else r.choice(["", "", "a.", "b."]) if k == "s" else "c." for k in kinds]
+        w = heapsim.World(kinds, twin_choices=choices)
+        ops = []
+        tags = ["t0"]
+        order = [f"t{j}" if kinds[j] == "t" else f"s{j}" for j in range(1, len(kinds))]
+        r.shuffle(order)
+        for l in order:
+            ops.append(f"ap:{r.choice(tags)}:{l}")
+            if l.startswith("t"):
+                tags.append(l)
+        ops.append(f"{r.choice(['de', 'cd', 'de'])}:{r.choice(tags[1:] if len(tags) > 1 else tags)}")
+        if r.random() < 0.5 and len(tags) > 2:
+            ops.append(f"de:{r.choice(tags[1:])}")
+        case = {"kinds": kinds, "ops": ops, "parsed": False, "twin": choices}
+        ctx.case(("destroy", i) if any(c == "" for c in choices) else None)
+        for j, op in enumerate(ops):
+            if op.split(":")[1] not in w.objs:          # already destroyed by the previous call
+                case["ops"] = ops[:j]
+                break
+            st = w.apply(op)
+            msg = heapsim.oracle_c01(w) if st == "ok" else f"{op} raised ({st})"
+            if msg:
+                ctx.violation("after this history the views no longer describe one tree: " + msg, case=dict(case, ops=ops[:j + 1]),
+                              observed=msg, stream="destroy")
+                break
+        ctx.count("destroy:histories")
 
 
 PARSE_TOKENS = ["<pre>", "</pre>", "<textarea>", "</textarea>", "<!---->", "<![CDATA[]]>", "<?>", "<!>", "<!-- -->", "<!--c-->", "x", " ", "\n",
